@@ -311,6 +311,59 @@ def check_loop_progress(ctx, rule, fn, progress, default_vars=()):
                                         if dd not in vars_:
                                             vars_.add(dd)
                                             grew = True
+        # a loop steered by a flag (`do { ... default: in_flags = false; ... } while(in_flags);`): the flag changes only on
+        # the way out; a trip that leaves it alone advances when the default cursor does
+        if vars_ and default_vars and progress is None:
+            flag_only = True
+            for d_ in vars_:
+                for n_ in fn.all_nodes():
+                    if n_.kind in ("BinaryOperator", "CompoundAssignOperator") and n_.get("op", "").endswith("=") and n_.op not in ("==", "!=", "<=", ">="):
+                        t_ = std_unwrap(n_.children[0])
+                        if t_.kind == "DeclRefExpr" and t_.d["d"] == d_:
+                            if n_.op != "=" or std_unwrap(n_.children[1]).kind != "CXXBoolLiteralExpr":
+                                flag_only = False
+                    if n_.kind == "UnaryOperator" and n_.op in ("++", "--", "&") and std_unwrap(n_.children[0]).kind == "DeclRefExpr" \
+                            and std_unwrap(n_.children[0]).d["d"] == d_:
+                        flag_only = False
+                    if n_.kind == "DeclStmt":
+                        for dc_ in n_.get("decls", []):
+                            if dc_["d"] == d_ and (dc_.get("t") or "") not in ("bool", "const bool", "_Bool"):
+                                flag_only = False
+            if flag_only:
+                flags_ = set(vars_)
+                vars_ = set(default_vars)
+                # path-sensitive in the flag: start a trip with the flag true, follow only the edges its known value allows
+                stuck_ = False
+                seen_, work_ = set(), [(h, True, False)]
+                while work_ and not stuck_:
+                    b_, fv_, pg_ = work_.pop()
+                    if (b_, fv_, pg_) in seen_:
+                        continue
+                    seen_.add((b_, fv_, pg_))
+                    for n_ in fn.blocks[b_].nodes():
+                        if n_.kind == "BinaryOperator" and n_.op == "=" and std_unwrap(n_.children[0]).kind == "DeclRefExpr" \
+                                and std_unwrap(n_.children[0]).d["d"] in flags_:
+                            fv_ = bool(std_unwrap(n_.children[1]).get("bv"))
+                        if modifies(n_):
+                            pg_ = True
+                    for su_, cond_, truth_ in fn.branch_edges(b_):
+                        if cond_ is not None and truth_ is not None and fv_ is not None:
+                            c_, t_ = cond_.strip(), truth_
+                            while c_.kind == "UnaryOperator" and c_.op == "!":
+                                c_, t_ = c_.children[0].strip(), not t_
+                            cu_ = std_unwrap(c_)
+                            if cu_.kind == "DeclRefExpr" and cu_.d["d"] in flags_ and bool(fv_) != bool(t_):
+                                continue
+                        if su_ == h:
+                            if not pg_:
+                                stuck_ = True
+                        elif su_ in body:
+                            work_.append((su_, fv_, pg_))
+                k += 1
+                ctx.inst(rule, "%s: loop #%d" % (fn.sig, k), not stuck_, fn.blocks[h].nodes()[0].loc if fn.blocks[h].nodes() else fn.loc,
+                         "a trip round the flag-steered loop leaves its cursor where it was" if stuck_ else
+                         "flag-steered loop: every trip that keeps the flag set advances the cursor", fn)
+                continue
         prog_blocks = {b for b in body if any(modifies(n) for n in fn.blocks[b].nodes())}
         # can we go h -> ... -> u inside the body avoiding progress blocks?
         stuck = False
@@ -1229,6 +1282,12 @@ def _char_may_be_zero(f, call, arg):
     """May the character appended by `call` be '0'?  Literals decide themselves; a variable needs a dominating decision that
     excludes '0' (directly, or through a once-initialised bool local that holds the comparison)."""
     from . import rules_atomic as RA
+    hops = 0
+    while std_unwrap(arg).kind == "DeclRefExpr" and std_unwrap(arg).d.get("d") in f.bind_map() and hops < 6:
+        # the character is the parameter of a folded helper (append_repeated(sink, c, n)): what it was bound to
+        arg, hops = f.node(f.bind_map()[std_unwrap(arg).d["d"]]), hops + 1
+    if std_unwrap(arg).kind == "ConditionalOperator":
+        arg = std_unwrap(arg)          # (std_unwrap looks through parameter bindings of folded helpers)
     for v, facts in flow.value_arms(f, arg, call):
         x = std_unwrap(v)
         c = x.cv() if x.kind not in ("DeclRefExpr", "MemberExpr") else None
@@ -1456,21 +1515,43 @@ def check_star_width(ctx, unit, rule="B6.star-width-nonneg"):
     fs = unit.fns(uq="frg::printf_format")
     if not fs:
         raise AnalysisBroken("anchor vanished: printf_format")
+    from .rules_guard import write_of
     for f in fs[:1]:
         n_star = [0]
         bad = []
 
+        # the popped value may rest in a local first (`const int width_arg = pop_arg<int>(...)`): a local that is initialised
+        # from pop_arg and from which the width field is assigned stands for the width until then
+        from . import rules_atomic as RA_
+        holders_ = set()
+        for d_, i_ in RA_.local_inits(f).items():
+            iv = std_unwrap(i_)
+            if iv.kind == "CallExpr" and iv.callee and iv.callee["uq"] == "frg::pop_arg" and not RA_._reassigned(f, d_):
+                for y in f.events():
+                    wy = write_of(y) if y.kind == "BinaryOperator" else None
+                    if wy and wy[0] and wy[0][-1] == "minimum_width" and wy[1] is not None and \
+                            any(z.kind == "DeclRefExpr" and z.d.get("d") == d_ for z in wy[1].walk()):
+                        holders_.add(d_)
+
         def is_width(x):
             p_ = path(x)
-            return bool(p_) and p_[-1] == "minimum_width"
+            if bool(p_) and p_[-1] == "minimum_width":
+                return True
+            xs = std_unwrap(x)
+            return xs.kind == "DeclRefExpr" and xs.d.get("d") in holders_
 
         def transfer(n, st):
+            if n.kind == "DeclStmt" and any(d_.get("d") in holders_ for d_ in n.get("decls", [])):
+                n_star[0] += 1
+                return ["raw"]
             w = write_of(n) if n.kind in ("BinaryOperator", "CompoundAssignOperator") else None
             if w and w[0] and w[0][-1] == "minimum_width" and w[1] is not None:
                 v = std_unwrap(w[1])
                 if v.kind == "CallExpr" and v.callee and v.callee["uq"] == "frg::pop_arg":
                     n_star[0] += 1
                     return ["raw"]
+                if v.kind == "DeclRefExpr" and v.d.get("d") in holders_:
+                    return [st]         # a plain copy of the popped value: as tested (or untested) as the value is
                 return ["ok" if st in ("neg",) or st == "ok" else st] if st != "raw" else ["raw"]
             if st in ("raw", "neg") and n.is_call() and n.kind == "CXXOperatorCallExpr" and n.callee and n.callee.get("op") == "()" \
                     and len(n.args) >= 3:
@@ -1490,7 +1571,6 @@ def check_star_width(ctx, unit, rule="B6.star-width-nonneg"):
             if op == "<=" and is_width(b) and a.strip().cv() == 0:
                 return ["ok"]
             return [st]
-        from .rules_guard import write_of
         flow.run(f, ["ok"], transfer, refine)
         if n_star[0] == 0:
             raise AnalysisBroken("anchor vanished: '*' width popped in printf_format")
@@ -1599,3 +1679,41 @@ def check_directive_state(ctx, unit, rule="I.directive-options-fresh", sticky=("
                                % (", ".join(miss), "is" if len(miss) == 1 else "are", c.loc))
         ctx.inst(rule, "frg::printf_format", not bad, f.loc, sorted(set(bad))[0] + ": an earlier directive's value leaks into this one" if bad else
                  "%d agent call(s); the options object is declared inside the directive loop" % len(agent_calls), f)
+
+
+# ---- %.Ns reads at most N characters ----------------------------------------------------------------------------------
+
+def check_strnlen_bounded(ctx, unit, rule="B.strnlen-bounded"):
+    """ISO C lets the argument of %.Ns be an array without a terminator as long as the precision does not exceed it:
+    do_printf_chars measures it with generic_strnlen(s, precision), so that function reads a character only after it has
+    established that fewer than `max` characters were read -- every dereference or subscript of its pointer parameter is
+    dominated by a test `counter < max` that holds."""
+    ctx.rule(rule, "generic_strnlen reads a character of its argument only under a dominating test `n < max` (max = its bound "
+             "parameter): it never touches the character at index max", 1)
+    fs = [f for f in unit.functions if f.uq == "frg::generic_strnlen"]
+    if not fs:
+        raise AnalysisBroken("anchor vanished: frg::generic_strnlen (instantiated by do_printf_chars)")
+    for f in fs[:1]:
+        ps = f.params()
+        if len(ps) != 2:
+            raise AnalysisBroken("anchor vanished: generic_strnlen(pointer, bound) signature")
+        cp, mx = ps[0]["d"], ps[1]["d"]
+        reads = []
+        for n in f.events():
+            if (n.kind == "UnaryOperator" and n.op == "*") or n.kind == "ArraySubscriptExpr":
+                b = n.children[0]
+                if any(y.kind == "DeclRefExpr" and y.d.get("d") == cp for y in b.walk()):
+                    reads.append(n)
+        if not reads:
+            raise AnalysisBroken("anchor vanished: character reads in generic_strnlen")
+        bad = []
+        for n in reads:
+            ok = False
+            for cond, truth in flow.facts_at(f, n.id):
+                rel = flow.fact_relation(cond, truth)
+                if rel is not None and rel[1] == "<" and std_unwrap(rel[2]).kind == "DeclRefExpr" and std_unwrap(rel[2]).d.get("d") == mx:
+                    ok = True
+            if not ok:
+                bad.append("the character read at %s is not dominated by a test `n < %s`" % (n.loc, ps[1]["n"]))
+        ctx.inst(rule, "frg::generic_strnlen", not bad, f.loc, "; ".join(bad[:2]) + ": for an array of exactly `max` characters without a "
+                 "terminator this reads one element past it" if bad else "%d character read(s), each under `n < max`" % len(reads), f)
